@@ -14,7 +14,7 @@ CLAIMED = {
         technique=TECH + ": seeded schedules of producer writes / recv fragmentation / short disk reads, oracle = factory bytes"),
     "C10": dict(
         level="fault_enumeration", design="4.2",
-        text=('The producer/link/recorder is crashed at EVERY byte offset of each sampled small stream (and at drawn offsets near packet/header boundaries of longer ones, of streams with 32-64 KiB packets and of genuine > 20 MB streams) for bytes, seekable and non-seekable file, BytesIO and socket sources (FIN; separately RST, stall+timeout, disk EIO), also after the buffer trim (threshold knob). Termination is decided deterministically by the simulated source (9th read after EOF is fatal, item cap, wall-clock backstop -> kind=hang), the yielded list must equal a 15-line reference framing of the delivered bytes, and nothing but StopIteration (or the injected I/O error: the object, a chained exception, or an OSError of the same class and errno) may come out.'),
+        text=('The producer/link/recorder is crashed at EVERY byte offset of each sampled small stream (and at drawn offsets near packet/header boundaries of longer ones, of streams with 32-64 KiB packets and of genuine > 20 MB streams) for bytes, seekable and non-seekable file, BytesIO and socket sources (FIN; separately RST, stall+timeout, disk EIO), also after the buffer trim (threshold knob). Termination is decided deterministically by the simulated source (9th read after EOF is fatal, item cap, CPU-time backstop -> kind=hang), the yielded list must equal a 15-line reference framing of the delivered bytes, and nothing but StopIteration (or the injected I/O error: the object, a chained exception, or an OSError of the same class and errno) may come out.'),
         note=("Crash points are exhaustive per enumerated workload; workloads (packet sizes, k, read size, chunking) are sampled. "
               "Warnings are not judged. Trusted: reference framer, CPython io."),
         technique=TECH + ": crash-point enumeration of the byte source (EOF/FIN/RST/timeout/EIO) with an EOF-read budget as "
